@@ -18,6 +18,33 @@ def lean_str(s):
     return '"' + s.replace('\\', '\\\\').replace('"', '\\"') + '"'
 
 
+# canonical handler name (the key of `Model.Ehabi.handler`) -> the opcodes EHABI32 table 4 gives that instruction form
+HANDLER_DOMAINS = {
+    '_decode_00xxxxxx': [(0, 63)],
+    '_decode_01xxxxxx': [(64, 127)],
+    '_decode_1000iiii_iiiiiiii': [(128, 143)],
+    '_decode_1001nnnn': [(144, 156), (158, 158)],
+    '_decode_10011101': [(157, 157)],
+    '_decode_10011111': [(159, 159)],
+    '_decode_10100nnn': [(160, 167)],
+    '_decode_10101nnn': [(168, 175)],
+    '_decode_10110000': [(176, 176)],
+    '_decode_10110001_0000iiii': [(177, 177)],
+    '_decode_10110010_uleb128': [(178, 178)],
+    '_decode_10110011_sssscccc': [(179, 179)],
+    '_decode_101101nn': [(180, 183)],
+    '_decode_10111nnn': [(184, 191)],
+    '_decode_11000nnn': [(192, 197)],
+    '_decode_11000110_sssscccc': [(198, 198)],
+    '_decode_11000111_0000iiii': [(199, 199)],
+    '_decode_11001000_sssscccc': [(200, 200)],
+    '_decode_11001001_sssscccc': [(201, 201)],
+    '_decode_11001yyy': [(202, 207), (216, 223), (232, 239), (248, 255)],
+    '_decode_11010nnn': [(208, 215)],
+    '_decode_11xxxyyy': [(224, 231), (240, 247)],
+}
+
+
 def _dispatch(cls):
     """[(names, branch index)] of the top-level if/elif/else chain on self.tag in cls.__init__."""
     src = textwrap.dedent(inspect.getsource(cls.__init__))
@@ -74,14 +101,32 @@ def generate(repo):
 
     ring = []
     ring_ok = True
+    objs = []
     for r in D.ring:
         try:
             mask, value, handler = r
             if not (isinstance(mask, int) and isinstance(value, int) and callable(handler)):
                 ring_ok = False
-            ring.append((mask, value, handler.__name__))
+            objs.append((mask, value, handler))
         except Exception:
             ring_ok = False
+    # A handler is named by the set of opcodes it is the first match for (its DOMAIN), not by its private Python
+    # name: renaming a handler or regrouping disjoint ring entries alarms nobody, while a changed partition of the
+    # 256 opcodes yields a name the model does not know (so `findHandler_cls` fails and the search runs).
+    if ring_ok:
+        dom = {}
+        for o in range(256):
+            for mask, value, handler in objs:
+                if o & mask == value:
+                    dom.setdefault(id(handler), []).append(o)
+                    break
+        canon = {tuple(o for a, b in rs for o in range(a, b + 1)): nm for nm, rs in HANDLER_DOMAINS.items()}
+        for mask, value, handler in objs:
+            d = tuple(dom.get(id(handler), []))
+            nm = canon.get(d)
+            if nm is None:
+                nm = ('UNREACHABLE:' if not d else 'UNKNOWN-DOMAIN:') + getattr(handler, '__name__', '?')
+            ring.append((mask, value, nm))
     if not ring_ok:
         ring = []
     L.append('/-- EHABIBytecodeDecoder.ring: (mask, value, handler) in order -/')
